@@ -430,11 +430,21 @@ def main():
     chk.cov['discharged'] = dis
     if chk.cov['model_mismatches']:
         chk.harness_error('a solver counterexample did not reproduce with concrete names')
+    from . import extras7
+    for fn_ in ('references_per_assignment',):
+        for pr in getattr(extras7, fn_)()[:2]:
+            chk.violation(pr, {'extras7': fn_})
+        chk.cov['traces_validated_against_impl'] += 1
+    chk.cov.setdefault('bounds', {})['concrete_supplements_round7'] = ['references_per_assignment']
     return chk.finish('one exploration per (model, builtins off / assigned / given at creation and filled later); every feasible path of the real resolution code '
                       'over symbolic names ends in z3 validity queries, one per reference')
 
 
 def replay(data):
+    if isinstance(data, dict) and data.get('extras7'):
+        from . import extras7
+        pr = getattr(extras7, data['extras7'])()
+        return bool(pr), pr[:2]
     if data.get('typed_names'):
         pr = typed_names_scenario()
         return bool(pr), pr[:3]
